@@ -115,6 +115,91 @@ claim(
     "DESIGN.md §6 C08",
 )
 
+
+claim(
+    "C09", "model_checking",
+    "Indicator terminals: z3 regex equality with the documented spellings (unbounded) and complete z3 enumeration (AllSAT until unsat) of the finite live terminal languages, every lexeme replayed through the real token callbacks; "
+    "selection loop (first fulfilled part, else last; part keeps its own outcome) for k<=3(4) parts with symbolic outcomes, plain/awaitable mask and yields on DetLoop; assembled AHB expressions (all modal-mark spellings, prefix operators, "
+    "bare marks, 2-3 parts, trailing bare mark, whitespace variants) through the real parser, resolver and evaluation: split == written parts, result == the deciding part evaluated on its own.",
+    XH_NOTE + "The split itself happens inside Lark (parser concretised): claimed for the assembled strings only.",
+    "z3 regex equality + complete enumeration of finite terminal languages; CrossHair on DetLoop (symbolic outcomes and yields)",
+    "DESIGN.md §6 C09",
+)
+claim(
+    "C10", "model_checking",
+    "For every selector-built well-formed expression (all 1-/2-leaf combinations of key, [nP], [nPa..b], [UB1..3] with U/O/X, hand-picked 3-leaf shapes, bare / behind indicators / inside multi-part AHB expressions) CrossHair explores all package tables from a pool "
+    "(incl. unknown package, package containing a time condition, package containing a package) and all resolver completion orders (symbolic yields): the resolved tree equals the real parser's tree of the textually substituted string; unknown package => NotImplementedError; all four flag combinations.",
+    XH_NOTE,
+    "CrossHair on DetLoop with symbolic package-table selectors and resolver yields; substitution oracle",
+    "DESIGN.md §6 C10",
+)
+claim(
+    "C11", "model_checking",
+    "All histories within the bound (1-2 steps quick / 3 thorough: call kind {condition parse, AHB parse, resolver call}, string, one of 11 in-place edits of the returned tree at depth 0/1; then a final parse) against the REAL lru_cache "
+    "(reached through an untraced proxy, because CrossHair bypasses lru_cache); eviction explored on the same tree_copy/raw function composed with lru_cache(maxsize=2); after every parse the tree equals a fresh uncached Lark parse.",
+    XH_NOTE + "The real maxsize=1024 is only exercised by one concrete run in the thorough tier.",
+    "CrossHair over symbolic histories with the real cache behind a NoTracing proxy",
+    "DESIGN.md §6 C11",
+)
+claim(
+    "C12", "model_checking",
+    "The number of event-loop turns of every user-supplied awaitable is a symbolic int: full pipeline (3 requirement keys, 2 format keys, hints, 2-3 modal-mark parts) equals the run in which nothing yields for every yield vector; "
+    "gather_if_necessary for every plain/awaitable mask (k<=4); evaluate_conditions / evaluate_format_constraints / get_hints pair each key with its own value (incl. duplicate keys); concurrent evaluations whose data comes from context-local storage "
+    "(real ContentEvaluationResult-based evaluators) equal their solo results.",
+    XH_NOTE + "Schedules are those a FIFO loop produces from the yield counts; C-accelerated Task and threads are outside.",
+    "CrossHair on DetLoop with symbolic yield counts (completion orders as solver variables)",
+    "DESIGN.md §6 C12",
+)
+VAL_NOTE = XH_NOTE + "Step lemmas replace callees in ahbicht.validation.validation's namespace by stubs satisfying the callee's own contract; the evaluation stub returns a symbolic (indicator, outcome, hints, format result) or raises InvalidExpressionError. Whole-tree glue uses real expressions and real evaluation on four AHB trees."
+claim(
+    "C13", "model_checking",
+    "Kernels map_requirement_validation_values / combine_requirements_of_different_levels == documented mapping/table, decided completely by z3 on PZ terms; every validate_* function explored by CrossHair for all abstract inputs: document order, exactly once, "
+    "nothing below a forbidden group/segment, parent dominance, FILLED/EMPTY suffix, NotImplementedError for an undetermined MUSS/prefix node; whole trees against the reference walk.",
+    VAL_NOTE,
+    "z3 on translated kernels + CrossHair step lemmas with contract stubs + whole-tree glue",
+    "DESIGN.md §6 C13",
+)
+claim(
+    "C14", "model_checking",
+    "Relational step lemmas: a node evaluated with indicator SOLL under flag f equals the node with MUSS (f) / KANN (not f) under any flag, for every evaluation class at segment-level nodes and free-text elements; every validate_* function passes the flag unchanged to all callees; "
+    "whole trees validated with the flag vs. with SOLL textually rewritten.",
+    VAL_NOTE,
+    "CrossHair relational step lemmas + whole-tree glue",
+    "DESIGN.md §6 C14",
+)
+claim(
+    "C15", "model_checking",
+    "Real validate_deep_anwendungshandbuch / validate_segment with 4 (5) free-text elements in two segments sharing format-constraint keys; the text-dependent format-constraint evaluator suspends for a symbolic number of loop turns per element: "
+    "every yield vector is explored; each element's format result is the one for its own input and equals the element validated on its own.",
+    XH_NOTE,
+    "CrossHair on DetLoop with symbolic yield counts; ContextVar semantics of the stdlib pure-Python Task",
+    "DESIGN.md §6 C15",
+)
+claim(
+    "C16", "fault_enumeration",
+    "Fault = the evaluation of a node's expression raises InvalidExpressionError: every node kind (group, segment, free-text element) and every subset of value-pool entries (pool size <= 3) is explored with a symbolic fault selector: the node is optional with the reason as hint, "
+    "an invalid pool entry is selectable, nothing aborts; whole trees with real invalid expressions (also multi-part) equal the run with 'Kann' in their place on every other node.",
+    VAL_NOTE,
+    "CrossHair with symbolic fault subsets (stubbed InvalidExpressionError) + whole-tree glue with real invalid expressions",
+    "DESIGN.md §6 C16",
+)
+claim(
+    "C17", "model_checking",
+    "Real validate_data_element_valuepool for every pool of 1-3 entries x entry outcome {fulfilled, unfulfilled, undetermined, invalid} x segment status x 8 entered inputs (absent, empty, each qualifier, foreign, truncated, joined): offered == admissible qualifiers in pool order, "
+    "accepted iff offered, unexpected flagged and reported empty, nothing offered => forbidden; whole trees with real evaluation.",
+    VAL_NOTE,
+    "CrossHair step lemma over symbolic entry outcomes/inputs + whole-tree glue",
+    "DESIGN.md §6 C17",
+)
+claim(
+    "C19", "model_checking",
+    "dump -> JSON -> load == original for RequirementConstraintEvaluationResult (incl. undetermined/null), FormatConstraintEvaluationResult, EvaluatedFormatConstraint, AhbExpressionEvaluationResult (all six indicators), ContentEvaluationResult with SYMBOLIC bool / Optional[str] field values "
+    "(strings stay symbolic through marshmallow); CategorizedKeyExtract (sanitized and not); every tree of the bounded case lists of C09/C10 through the real JSON text step, structurally equal and evaluating to the same result.",
+    XH_NOTE + "json.dumps/json.loads (C code) is assumed to be the identity on JSON-compatible structures for the symbolic-field harnesses (the dumped structure is checked to be JSON-compatible); trees take the real text step.",
+    "CrossHair with symbolic field values through the real marshmallow schemas",
+    "DESIGN.md §6 C19",
+)
+
 ALL = [f"C{n:02d}" for n in range(1, 21)]
 manifest = {
     "version": 1,
